@@ -66,7 +66,10 @@ def run_lifecycle(backend, case, tmpdir, n):
             other_before = [sh.dump(o, univ) for _, o in others]
             target = facade if ph["via"] == "datastore" else st
             op_results = [sh.apply_op(target, op) for op in ph["ops"]]
-            bucket = ds[sh.s_of(ph["b"])]
+            try:
+                bucket = ds[sh.s_of(ph["b"])]
+            except KeyError:        # only in a shrinking candidate that dropped the bucket's creation: not a lifecycle
+                return {"stores": names, "phases": out, "malformed": "phase feeds a bucket that does not exist"}
             steps, branches, befores, performed = [], [], [], []
             views = sh.dump(st, univ)
             first = views
@@ -98,7 +101,10 @@ def run_lifecycle(backend, case, tmpdir, n):
                 if res[0] != 0:
                     break
             last_views = sh.dump(st, univ)
-            final = [sh.ev_w(e) for e in bucket.get(-1)]
+            try:
+                final = [sh.ev_w(e) for e in bucket.get(-1)]
+            except Exception as ex:  # noqa: BLE001
+                final = {"raised": type(ex).__name__}
             rec = {"st": ph["st"], "backend": be, "steps": steps, "branches": branches, "before": befores, "final": final,
                    "performed": performed, "op_results": op_results, "first": first, "last": last_views,
                    "other_store_changed": [j for (j, o), vb in zip(others, other_before) if sh.dump(o, univ) != vb]}
@@ -240,6 +246,28 @@ def large_cases(rng, tier):
 
 # ---------------------------------------------------------------------------
 # what was fed into a bucket since it was created (for the reduce clause) and the model's history
+
+
+def well_formed(case):
+    """buckets are created only when they do not exist, deleted / written / fed only when they do (what the generators
+    produce; shrinking must stay inside, or a candidate fails for a reason of its own, e.g. create on a live bucket)"""
+    alive = {}
+    for ph in case["phases"]:
+        a = alive.setdefault(ph["st"], set())
+        for op in ph["ops"]:
+            if op[0] == 0:
+                if op[1] in a:
+                    return False
+                a.add(op[1])
+            elif op[0] == 2:
+                if op[1] not in a:
+                    return False
+                a.discard(op[1])
+            elif op[1] not in a:
+                return False
+        if ph["b"] not in a:
+            return False
+    return True
 
 
 def fed_and_history(case):
